@@ -122,12 +122,12 @@ def h_soup(c0: int, c1: int, c2: int, c3: int, c4: int, c5: int, c6: int, c7: in
         return bad is None or known_angle(region, toks)
 
 
-EXCUSE_ANGLE = False
+EXCUSE_ANGLE = ()  # region names for which the angle-bracket heuristic failure is a listed known finding
 
 
 def known_angle(region, toks):
     """known finding D15: the failure disappears when the `<` / `>` tokens are removed (angle-bracket heuristic)"""
-    if not EXCUSE_ANGLE:
+    if not EXCUSE_ANGLE or region[0] not in EXCUSE_ANGLE:
         return False
     if "<" not in toks and ">" not in toks:
         return False
@@ -156,7 +156,7 @@ def run(tier):
     ck.assume("region content is rendered with a blank between tokens (adjacent `] ]` is therefore two tokens; the `]]` fusion is finding D5 of C14)",
               "soups are bracket-balanced by construction: element := atom | ( soup ) | [ soup ] | { soup }; `<` and `>` are ordinary atoms (C++ balanced-token-seq)")
     ck.out_of_scope(f"soups longer than {maxtok} tokens", "tokens outside the alphabets")
-    known_d15 = any(e["id"] == "D15" for e in ck.known)
+    known_d15 = tuple(e["match"]["region"] for e in ck.known if e["id"].startswith("D15"))
     pool = chrun.make_pool()
     cex = []
     try:
@@ -180,7 +180,7 @@ def run(tier):
         if bad is None:
             raise HarnessError(f"counterexample did not reproduce: {msg} {region[0]} {toks}")
         angle = ("<" in toks or ">" in toks) and judge(region, [t for t in toks if t not in "<>"]) is None
-        key = dict(kind="soup", cls="angle-heuristic" if angle else "other", region=region[0] if not angle else "*")
+        key = dict(kind="soup", cls="angle-heuristic" if angle else "other", region=region[0])
         sig = (key["cls"], key["region"], bad[:30])
         if sig in seen:
             continue
@@ -188,14 +188,18 @@ def run(tier):
         body = ("from vf.props import c13\n" f"c13.MAXTOK = {budget}\nc13.ATOMS = {atoms!r}\nregion, toks, bad = c13.replay({list(shard) + list(args)!r})\n"
                 "print(c13.render(region, toks)); print(bad)\nsys.exit(1 if bad else 0)\n")
         ck.violation(f"region {region[0]} with content {' '.join(toks)!r}: {bad}", ck.write_replay(body), key=key)
-    # known finding D15 is re-demonstrated from its stored input
-    if known_d15:
-        region = next(r for r in REGIONS if r[0] == "alignas")
-        toks = ["x", "<", "x", "[", "x", ">", "0", "]"]
+    # known finding D15 is re-demonstrated from its stored input, per listed region
+    for e in ck.known:
+        if not e["id"].startswith("D15"):
+            continue
+        region = next((r for r in REGIONS if r[0] == e["match"]["region"]), None)
+        if region is None:
+            continue
+        toks = ["<", "(", ">", ")"] if region[3] != "[[]]" else ["a", "(", "<", "(", ">", ")", ")"]
         bad = judge(region, toks)
         ck.traces += 1
         if bad is not None and judge(region, [t for t in toks if t not in "<>"]) is None:
-            ck.known_hit(next(e for e in ck.known if e["id"] == "D15"), f"alignas( {' '.join(toks)} ): {bad}")
+            ck.known_hit(e, f"{render(region, toks)!r}: {bad}")
     globals().update(MAXTOK=4, ATOMS=ATOMS_FULL)
     for vals in ([0, 7, 19, 5, 30, 30], [5, 1, 18, 2, 30, 30], [10, 20, 0, 30, 3, 30]):
         region, toks, bad = replay(vals + [30] * 4)
